@@ -453,9 +453,20 @@ fn run_e(
     let items = needles.len() as u64 * nchunks;
     let rep = par::run_chunks(items, 1, |lo, hi, r| {
         let mut ctx = Ctx::new();
+        let guard_needle = places.iter().any(|p| *p != Place::Plain);
         for it in lo..hi {
-            let needle = &needles[(it / nchunks) as usize];
+            let needle_v = &needles[(it / nchunks) as usize];
             let c = it % nchunks;
+            // in guard-page runs the NEEDLE too ends directly in front of a
+            // PROT_NONE page (alternately: starts directly behind one)
+            let mut narena = if guard_needle { Some(Arena::guarded(1)) } else { None };
+            let needle: &[u8] = match narena.as_mut() {
+                Some(na) => {
+                    let off = if it % 2 == 0 { na.flush_end(needle_v.len()) } else { 0 };
+                    na.place_fill(off, needle_v, 0, 0, 0)
+                }
+                None => needle_v,
+            };
             ctx.set_needle(needle);
             let subjects = build_all(r, kinds, needle, None, seed);
             hays.for_range(c * chunk, ((c + 1) * chunk).min(ht), |idx, h| {
